@@ -13,6 +13,7 @@ import z3
 from .sym import simp
 
 FEAS_TIMEOUT_MS = int(os.environ.get("PYVC_FEAS_MS", "400"))
+ARITY2_TERMS = 36
 COVER_TIMEOUT_MS = int(os.environ.get("PYVC_COVER_MS", "10000"))
 VC_TIMEOUT_MS = int(os.environ.get("PYVC_VC_MS", "6000"))
 EXT_TIMEOUT_S = float(os.environ.get("PYVC_EXT_S", "30"))
@@ -89,6 +90,16 @@ def _index_terms(formulas, limit=4000):
             if e.decl().kind() == z3.Z3_OP_SELECT and e.num_args() == 2 and z3.is_int(e.arg(1)):
                 out.append(e.arg(1))
             stack.extend(e.children())
+    return out
+
+
+def _subterms(e, limit=60):
+    out, stack = [], [e]
+    while stack and len(out) < limit:
+        x = stack.pop()
+        if z3.is_app(x):
+            out.append(x)
+            stack.extend(x.children())
     return out
 
 
@@ -202,12 +213,34 @@ class Path:
             for t in _index_terms([goal]):
                 add(t)
         cache = self.__dict__.setdefault("_inst_cache", {})
+        gterms = []
+        if goal is not None:
+            for t in _index_terms([goal]):
+                if not any(x.decl().kind() == z3.Z3_OP_SELECT for x in _subterms(t)):
+                    gterms.append(t)
 
         def run(ts):
             out = []
             for q in list(self.qhyps):
                 if getattr(q, "arity", 1) == 2:
-                    small = ts[:14]
+                    # pairs (bounded: the instance count is quadratic): index terms of the goal first, then 0, 1,
+                    # the pool (latest skolems first) and its +-1 neighbours
+                    small, sid = [], set()
+                    rpool = list(self.pool)[::-1]
+                    cands = list(gterms) + [z3.IntVal(0), z3.IntVal(1)] + rpool
+                    for t in rpool[:8]:
+                        for fmap in self.term_maps[:4]:
+                            try:
+                                cands.append(simp(fmap(t)))  # e.g. pin[r] for a ghost sequence of positions
+                            except Exception:
+                                pass
+                    for t in rpool:
+                        cands += [simp(t + 1), simp(t - 1)]
+                    for t in cands + ts:
+                        if t.get_id() not in sid:
+                            sid.add(t.get_id())
+                            small.append(t)
+                    small = small[:ARITY2_TERMS]
                     for t1 in small:
                         for t2 in small:
                             key = (id(q), t1.get_id(), t2.get_id())
@@ -421,6 +454,24 @@ class Path:
             pass
         return out
 
+    def pre_cover(self):
+        """satisfiability of the path condition when the function has returned and before the
+        postconditions are evaluated (evaluating many clauses makes the same query much harder)"""
+        if self.opts.get("have_cover") or self.__dict__.get("_pre_cover"):
+            return
+        fs = self.__dict__.get("_fs")
+        ok = False
+        if fs is not None:
+            self.feasible(True)
+            try:
+                ok = fs.check() == z3.sat
+            except Exception:
+                pass
+        if not ok:
+            r, _ = self._check([], COVER_TIMEOUT_MS, inst=False)
+            ok = r == z3.sat
+        self._pre_cover = ok
+
     def final_cover(self):
         """Is the completed path's condition satisfiable (non-vacuity)?
 
@@ -428,8 +479,8 @@ class Path:
         with the instantiated quantified hypotheses (what the VCs actually use) must not be
         refutable by the solver within the VC budget - a contradiction the VCs could exploit is one
         the solver finds within that budget."""
-        ok = False
-        fs = self.__dict__.get("_fs")
+        ok = bool(self.__dict__.get("_pre_cover"))
+        fs = self.__dict__.get("_fs") if not ok else None
         if fs is not None:
             self.feasible(True)
             try:
